@@ -341,6 +341,10 @@ def run_struct(case, ctx):
         for m in [ms] + others[:2]:
             got = guarded(ctx, m.decode_row, ref)
             ctx.check(R.deq(got, want), "roundtrip", f"decode_row({ref!r}) = {got!r} expected {want!r} for {obj!r}")
+            scribble(got)
+            again = guarded(ctx, m.decode_row, ref)
+            ctx.check(R.deq(again, want), "decode_aliasing",
+                      f"decode_row({ref!r}) = {again!r} after the previous result was modified; expected {want!r}")
     for kind, b in bad:
         ctx.label("reject_" + kind)
         try:
@@ -379,6 +383,24 @@ def json_labels(ctx, schema, objs, bad):
     ctx.nt(has_def or bool(bad))
 
 
+def scribble(x):
+    """Modify a decoded value in place (recursively where it is a container)."""
+    if isinstance(x, dict):
+        for k in list(x):
+            if isinstance(x[k], (dict, list)):
+                scribble(x[k])
+            else:
+                x[k] = "#scribbled#"
+        x["#scribble_key#"] = 1
+    elif isinstance(x, list):
+        for i, v in enumerate(x):
+            if isinstance(v, (dict, list)):
+                scribble(v)
+            else:
+                x[i] = "#scribbled#"
+        x.append("#scribbled#")
+
+
 def run_json(case, ctx):
     import tskit
 
@@ -400,9 +422,20 @@ def run_json(case, ctx):
         for m in [ms] + others[:2]:
             got = m.decode_row(ref)
             ctx.check(R.deq(got, want), "roundtrip", f"decode_row({ref!r}) = {got!r} expected {want!r}")
+            # a decoded value belongs to the caller: scribbling on it must not change later decodes
+            scribble(got)
+            again = m.decode_row(ref)
+            ctx.check(R.deq(again, want), "decode_aliasing",
+                      f"decode_row({ref!r}) = {again!r} after the previous result was modified; expected {want!r}")
     # docs: 'empty metadata is interpreted as an empty object'
     got = ms.decode_row(b"")
     ctx.check(R.deq(got, orc.expected({})), "empty_metadata", f"decode_row(b'') = {got!r}")
+    scribble(got)
+    for m in [ms] + others[:2]:
+        again = m.decode_row(b"")
+        ctx.check(R.deq(again, orc.expected({})), "decode_aliasing",
+                  f"decode_row(b'') = {again!r} after an earlier result was modified; expected {orc.expected({})!r}")
+        scribble(again)
     for kind, b in bad:
         ctx.label("reject_" + kind)
         try:
